@@ -96,6 +96,19 @@ pub fn run(api: &str, case: &J) -> J {
             json!({"ok": results})
         },
         "capi_functions" => json!({"ok": FUNCTIONS}),
+        // &Unit * &Unit and &Unit / &Unit on database units given by name
+        "unit_muldiv" => {
+            use libhaystack::units::get_unit;
+            let a = get_unit(case["a"].as_str().unwrap()).expect("unit a");
+            let b = get_unit(case["b"].as_str().unwrap()).expect("unit b");
+            let r = if case["op"] == "mul" { a * b } else { a / b };
+            let d = |u: &libhaystack::units::Unit| u.dimensions.map(|x| vec![x.kg, x.m, x.sec, x.k, x.a, x.mol, x.cd]);
+            match r {
+                Ok(u) => json!({"ok": {"name": u.name(), "dims": d(u), "scale": format!("{:016x}", u.scale.to_bits()),
+                                       "a": {"dims": d(a), "scale": format!("{:016x}", a.scale.to_bits())}, "b": {"dims": d(b), "scale": format!("{:016x}", b.scale.to_bits())}}}),
+                Err(e) => json!({"ok": {"err": e}}),
+            }
+        }
         // units::match_units(dim, scale) -> names, dims and scales of the returned database units
         "match_units" => {
             use libhaystack::units::{match_units, unit_dimension::UnitDimensions};
@@ -146,6 +159,10 @@ pub fn run(api: &str, case: &J) -> J {
             out.insert("all_subtypes".into(), names(ns.all_subtypes_of(&sym)));
             out.insert("inheritance".into(), names(ns.inheritance(&sym).clone()));
             out.insert("fits".into(), json!(ns.fits(&sym, &base)));
+            out.insert("fits_marker".into(), json!(ns.fits_marker(&sym)));
+            out.insert("fits_val".into(), json!(ns.fits_val(&sym)));
+            out.insert("fits_choice".into(), json!(ns.fits_choice(&sym)));
+            out.insert("fits_entity".into(), json!(ns.fits_entity(&sym)));
             if !case["rec"].is_null() {
                 let rec = vj::dict_from(&case["rec"]);
                 let r = ns.reflect(&rec);
